@@ -65,6 +65,13 @@ def main():
     for f in dl["fails"][:40]:
         c.violation(f"dimension-law:{f[0].split('-')[0]}:{f[1]}", f"dimension law {f[1]} fails ({f[0]}): {f[2:]}", {"when": f[0], "law": f[1], "operands": f[2:],
                     "how": "harness/impl/dimlaws_worker.py: Dimension.define(name, symbol) in a fresh process, then the identities a*b is b*a, a/b is a*b**-1, ... on existing derived dimensions"})
+    # a long-running process: units held from the start, a large number of other units computed, the same products again by other routes
+    ch = impl("churn_worker.py", {"n": 70000 if c.tier == "quick" else 400000}, timeout=1500)
+    c.count(["churn", ch["made"]], nontrivial=True)
+    for f in ch["fails"][:10]:
+        c.violation(f"twoobjects-after-churn:{f[0]}", f"after {ch['made']} other units had been computed, route {f[1]} to {f[0]} gave {f[2]}, another object than the one obtained at the start ({f[3]})",
+                    {"held": f[0], "route": f[1], "other_units_computed": ch["made"], "how": "harness/impl/churn_worker.py"})
+    c.cov["units_in_long_process"] = ch["units_known"]
     exp = impl("export_worker.py", {})
     prefixes = exp["prefix_by_name"]
     names = [n for n in G.NAMES if n in exp["unit_by_name"]]
